@@ -17,7 +17,7 @@ OUTSIDE = ["more than 2 contests with symbolic draws (the draw-by-draw sign comp
            "soft threshold (sigmoid) with symbolic draws", "B above 2"]
 BOUNDS = {"quick": "2 contests, B = 2 draws, levels {0.5, 0.9}, symbolic margin draws for one contest at a time (the other contest has concrete draws); hard threshold, correlation on/off; "
                    "called / stop-listed subsets; history clause: every list and order of aggregates computed before the summary over "
-                   "{postal_code, county_fips, county_classification} must give the same summary as the contests alone; wrong-size dictionary",
+                   "{postal_code, county_fips, county_classification} must give the same summary as the contests alone; several summary requests with different weights after one run; wrong-size dictionary",
           "thorough": "both contests with symbolic draws at once"}
 OPTS = {"quick": dict(case_timeout_s=900, solver_timeout_ms=30000, max_paths=200000),
         "thorough": dict(case_timeout_s=3300, solver_timeout_ms=60000, max_paths=2000000)}
@@ -47,6 +47,9 @@ def cases(tier):
     for o in orders:
         out.append(dict(name="history_%s" % "+".join(a.split("_")[-1][:5] for a in o), kind="history", order=o, B=2, alphas=[0.9],
                         units=units, symbolic_rows=[0] if tier == "quick" else None, weight=20))
+    for corr in (True, False):
+        out.append(dict(name="repeated_requests_%s" % ("corr" if corr else "nocorr"), kind="repeat", corr=corr, B=2, alphas=[0.9],
+                        units=units, aggregates=["postal_code", "unit"], symbolic_rows=[0], weight=25))
     out.append(dict(name="wrong_size_dict", kind="wrong", B=2, alphas=[0.9], units=units, aggregates=["postal_code", "unit"], weight=5))
     return out
 
@@ -75,6 +78,25 @@ def run(ctx, case):
             except BootstrapElectionModelException:
                 ok = True
             return [("a weight dictionary of the wrong size is rejected", ok)], {}
+        if case["kind"] == "repeat":
+            # several summary requests after one estimate run: each answer depends on its own arguments only
+            c = dict(case, model_parameters={"national_summary_correlation": case["corr"]})
+            r = BS.run_bs_client(ctx, c, sc=sc, boot=boot)
+            wA, wB = {"AA": 11, "BB": 16}, {"AA": 3, "BB": 2.5}
+            first = summary_of(ctx, case, r, wA, 100, [0.9]).copy()
+            second = summary_of(ctx, case, r, wB, -7, [0.5, 0.9]).copy()
+            third = summary_of(ctx, case, r, wA, 100, [0.9]).copy()
+            ref = BS.run_bs_client(ctx, c, sc=sc, boot=boot)
+            alone = summary_of(ctx, case, ref, wB, -7, [0.5, 0.9]).copy()
+            obl = [("a repeated request gives the same columns", list(first.columns) == list(third.columns) and
+                    list(second.columns) == list(alone.columns))]
+            for col_ in alone.columns:
+                if col_ != "estimand" and col_ in second.columns:
+                    obl.append(("second request %s equals the same request made alone" % col_, T.cell_equal(second[col_].iloc[0], alone[col_].iloc[0])))
+            for col_ in first.columns:
+                if col_ != "estimand" and col_ in third.columns:
+                    obl.append(("repeating the first request gives %s again" % col_, T.cell_equal(first[col_].iloc[0], third[col_].iloc[0])))
+            return obl, {"second": second.drop(columns=["estimand"])}
         if case["kind"] == "history":
             ref = BS.run_bs_client(ctx, dict(case, aggregates=["postal_code", "unit"]), sc=sc, boot=boot)
             ref_df = summary_of(ctx, case, ref, w, base, case["alphas"])
